@@ -63,13 +63,13 @@ double gen_unit(Src& s, double vmax, double vmin_nonzero)
 std::string gen_header(Src& s, int& lines)
 {
 	lines = s.pick({2, 2, 1, 1, 1});
-	static const char* pool[] = {"# column data", "x [GeV]\ty [cm^2]", "1 2 3 not data", "created by a test; 4.5e3", "#", "   ", "// energy   rate"};
+	static const char* pool[] = {"# column data", "x [GeV]\ty [cm^2]", "1 2 3 not data", "created by a test; 4.5e3", "#", "   ", "// energy   rate", ""};
 	std::string h;
 	for(int i = 0; i < lines; i++)
 	{
 		if(i)
 			h += "\n";
-		h += pool[s.range(0, 6)];
+		h += pool[s.range(0, (i == 0 || i == lines - 1) ? 6 : 7)];	// blank lines only inside a multi-line header
 	}
 	if(lines > 0 && h.empty())
 		h = "#";
